@@ -245,8 +245,18 @@ func (p *project) texts() map[string][]byte {
 	if p.Self != "" {
 		t[p.Self] = []byte(p.Root)
 	}
-	for k, v := range p.Types {
-		t[k] = []byte(v)
+	if p.TypeFile != "" {
+		for i, k := range sortedKeys(p.Types) {
+			key := p.TypeFile
+			if i > 0 {
+				key = fmt.Sprintf("%s#%d", p.TypeFile, i+1)
+			}
+			t[key] = []byte(p.Types[k])
+		}
+	} else {
+		for k, v := range p.Types {
+			t[k] = []byte(v)
+		}
 	}
 	for k, v := range p.Regex {
 		t[k] = []byte(v)
@@ -447,39 +457,65 @@ func c16Sink(w *core.W, entry string, in []byte, wit []byte) callSink {
 		if ke == nil || !strings.Contains(msg, "\n\tin line ") {
 			return // no position carried
 		}
-		// the text the position refers to: the file the error names
-		ref := text
-		refName := "root"
+		// the text the position refers to: the file the error names. Several texts may
+		// be filed under one name (type bodies cut out of one source file, keys
+		// "name", "name#2", ...): the position must fit one of them.
+		type cand struct {
+			ref     []byte
+			refName string
+		}
+		cands := []cand{{text, "root"}}
 		if t, ok := texts[ke.Filename()]; ok {
-			ref = t
-			if ke.Filename() != "root" {
-				refName = "type"
+			rn := "type"
+			if ke.Filename() == "root" {
+				rn = "root"
+			}
+			cands = []cand{{t, rn}}
+			for n := 2; ; n++ {
+				t2, ok := texts[fmt.Sprintf("%s#%d", ke.Filename(), n)]
+				if !ok {
+					break
+				}
+				cands = append(cands, cand{t2, rn})
 			}
 		}
-		idx := int(ke.Index())
-		if idx >= len(ref) && len(ref) > 0 {
-			fail("position-inside-text", fmt.Sprintf("index %d outside the %s text of length %d (code %d)", idx, refName, len(ref), code), map[string]string{"code": fmt.Sprint(code), "ref": refName})
-			return
+		judge := func(ref []byte, refName string) (string, string, map[string]string) {
+			idx := int(ke.Index())
+			if idx >= len(ref) && len(ref) > 0 {
+				return "position-inside-text", fmt.Sprintf("index %d outside the %s text of length %d (code %d)", idx, refName, len(ref), code), map[string]string{"code": fmt.Sprint(code), "ref": refName}
+			}
+			if len(ref) == 0 {
+				return "", "", nil
+			}
+			line, col, lineText, ok := refLineCol(ref, idx)
+			if !ok {
+				return "", "", nil
+			}
+			if int(ke.Line()) != line || int(ke.Column()) != col {
+				return "line-column", fmt.Sprintf("Line/Column = %d/%d, byte %d of the %s text is at %d/%d (code %d)", ke.Line(), ke.Column(), idx, refName, line, col, code),
+					map[string]string{"code": fmt.Sprint(code), "ref": refName, "conv": newlineConvention(ref), "zero": fmt.Sprint(ke.Line() == 0)}
+			}
+			quoted := strings.TrimLeft(lineText, " \t")
+			if len(lineText) > 200 {
+				quoted = quoted[:min(len(quoted), 100)]
+			}
+			if !strings.Contains(msg, quoted) {
+				return "quotes-line", fmt.Sprintf("rendering does not quote line %d %q: %s", line, trunc(quoted, 60), trunc(msg, 200)), map[string]string{"code": fmt.Sprint(code), "ref": refName}
+			}
+			return "", "", nil
 		}
-		if len(ref) == 0 {
-			return
+		var firstClause, firstDetail string
+		var firstSig map[string]string
+		for _, c := range cands {
+			cl, d, sg := judge(c.ref, c.refName)
+			if cl == "" {
+				return
+			}
+			if firstClause == "" {
+				firstClause, firstDetail, firstSig = cl, d, sg
+			}
 		}
-		line, col, lineText, ok := refLineCol(ref, idx)
-		if !ok {
-			return
-		}
-		if int(ke.Line()) != line || int(ke.Column()) != col {
-			fail("line-column", fmt.Sprintf("Line/Column = %d/%d, byte %d of the %s text is at %d/%d (code %d)", ke.Line(), ke.Column(), idx, refName, line, col, code),
-				map[string]string{"code": fmt.Sprint(code), "ref": refName, "conv": newlineConvention(ref), "zero": fmt.Sprint(ke.Line() == 0)})
-			return
-		}
-		quoted := strings.TrimLeft(lineText, " \t")
-		if len(lineText) > 200 {
-			quoted = quoted[:min(len(quoted), 100)]
-		}
-		if !strings.Contains(msg, quoted) {
-			fail("quotes-line", fmt.Sprintf("rendering does not quote line %d %q: %s", line, trunc(quoted, 60), trunc(msg, 200)), map[string]string{"code": fmt.Sprint(code), "ref": refName})
-		}
+		fail(firstClause, firstDetail, firstSig)
 	}
 }
 
